@@ -121,8 +121,7 @@ class Sim:
                     if n.split(":")[0] == h:
                         self.addr2name[sa] = n
 
-        class _T:
-            time = staticmethod(self.clock.time)
+        _T = self.clock.module_shim()
         self._saved = hashmod.time
         hashmod.time = _T
         import pymemcache.pool as poolmod
